@@ -16,11 +16,15 @@ OutcomeBag(r, idx) ==
          IF GapAtSwitch
          THEN [x \in {Replace(r, j, idx) : j \in 0 .. (K - 1)} \cup {r} |-> IF x = r THEN 3 * K + 1 ELSE 1]
          ELSE [x \in {Replace(r, j, idx) : j \in 0 .. (K - 1)} |-> 1]
+RECURSIVE Gcd(_, _)
+Gcd(a, b) == IF b = 0 THEN a ELSE Gcd(b, a % b)
+GcdAll(d) == FoldSet(LAMBDA r, acc : Gcd(d[r], acc), 0, DOMAIN d)
+Normalize(d) == LET g == GcdAll(d) IN IF g <= 1 THEN d ELSE [r \in DOMAIN d |-> d[r] \div g]
 RECURSIVE Dist(_)
 Dist(n) == IF n = 0 THEN [r \in {<<>>} |-> 1]
            ELSE LET d == Dist(n - 1)
                     succ == UNION {DOMAIN OutcomeBag(r, n - 1) : r \in DOMAIN d}
-                IN [x \in succ |-> FoldSet(LAMBDA r, acc : acc + (IF x \in DOMAIN OutcomeBag(r, n - 1) THEN d[r] * OutcomeBag(r, n - 1)[x] ELSE 0), 0, DOMAIN d)]
+                IN Normalize([x \in succ |-> FoldSet(LAMBDA r, acc : acc + (IF x \in DOMAIN OutcomeBag(r, n - 1) THEN d[r] * OutcomeBag(r, n - 1)[x] ELSE 0), 0, DOMAIN d)])
 Total(d) == FoldSet(LAMBDA r, acc : acc + d[r], 0, DOMAIN d)
 Incl(d, p) == FoldSet(LAMBDA r, acc : acc + (IF \E x \in 1 .. Len(r) : r[x] = p THEN d[r] ELSE 0), 0, DOMAIN d)
 Uniform(n) == LET d == Dist(n) IN \A p \in 0 .. (n - 1) : Incl(d, p) * n = K * Total(d)
